@@ -202,10 +202,44 @@ def r5_header(ctx, res):
         res.find(key, ii.module.loc(ii.node), f'is_ili recognises header spellings {sorted(consts)}')
 
 
+def r6_tab_separated_only(ctx, res):
+    """a line of the ILI file is split at tab characters and nowhere else; nothing inside a field is interpreted (quotes are
+    ordinary characters: definitions routinely start with one).  Accepted idioms: `<line>.split('\\t')`, or the csv module
+    with delimiter='\\t' and quoting=csv.QUOTE_NONE."""
+    ld = ctx.repo.func('_ili', 'load')
+    loc = ld.module.loc(ld.node)
+    key = 'ili-fields-split-on-tab'
+    splits = [n for n in walk_no_nested(ld.node) if isinstance(n, ast.Call) and isinstance(n.func, ast.Attribute) and n.func.attr == 'split']
+    csvs = [n for n in walk_no_nested(ld.node) if isinstance(n, ast.Call) and norm(n.func).split('.')[-1] in ('reader', 'DictReader')]
+    res.inst(key, loc, f'{len(splits)} split calls, {len(csvs)} csv readers')
+    for c in csvs:
+        kw = {k.arg: norm(k.value) for k in c.keywords}
+        if kw.get('delimiter') not in ("'\\t'", '"\\t"') or not kw.get('quoting', '').endswith('QUOTE_NONE'):
+            res.find(key, ld.module.loc(c), f'_ili.load reads the file with `{norm(c)[:80]}`: without delimiter=\'\\t\' and quoting=csv.QUOTE_NONE the '
+                                            f'csv dialect interprets double quotes, so a definition that starts with a quote loses it or '
+                                            f'swallows the following lines (their ILIs are never created)')
+    for sp in splits:
+        args = [norm(a) for a in sp.args]
+        if args[:1] not in (["'\\t'"], ['"\\t"']) or len(sp.args) > 1 or sp.keywords:
+            res.find(key, ld.module.loc(sp), f'_ili.load splits with `{norm(sp)[:60]}`; fields are separated by single tab characters only')
+    if not splits and not csvs:
+        res.find(key, loc, '_ili.load no longer splits lines at tab characters with one of the recognised idioms')
+    # line ends: only the line terminator is removed (a trailing tab = empty last field must survive)
+    key = 'ili-line-end-only'
+    strips = [n for n in walk_no_nested(ld.node) if isinstance(n, ast.Call) and isinstance(n.func, ast.Attribute) and n.func.attr in ('strip', 'rstrip', 'lstrip')]
+    res.inst(key, loc, f'{[norm(x)[-18:] for x in strips]}')
+    for st in strips:
+        a = [norm(x) for x in st.args]
+        if st.func.attr != 'rstrip' or a not in (["'\\r\\n'"], ["'\\n'"], ['"\\r\\n"'], ['"\\n"'], ["'\\n\\r'"]):
+            res.find(key, ld.module.loc(st), f'_ili.load strips with `{norm(st)[-40:]}`: removing more than the line terminator drops an empty '
+                                             f'trailing definition field (or leading whitespace of the ILI id)')
+
+
 RULES = [
     ('C19-R1', r1_write_set, 3),
     ('C19-R2', r2_upsert_shape, 6),
     ('C19-R3', r3_no_other_ilis_writer, 5),
     ('C19-R4', r4_one_transaction, 1),
     ('C19-R5', r5_header, 2),
+    ('C19-R6', r6_tab_separated_only, 2),
 ]
